@@ -248,8 +248,12 @@ def inject(kind, data, rng):
             return False
         groups[-1]["submitter_params"]["hpc_config"] = {"hpc_type": "local", "job_prefix": "job", "hpc": {}}
     elif kind == "estimate_above_walltime":
+        # just above the walltime of the job's OWN group (other groups may allow more)
         j = rng.choice(jobs)
-        j["estimated_run_minutes"] = 100000
+        gname = j.get("submission_group", "default")
+        g = next(g_ for g_ in groups if g_["name"] == gname)
+        h, m_, s_ = (int(x) for x in g["submitter_params"]["hpc_config"]["hpc"]["walltime"].split(":"))
+        j["estimated_run_minutes"] = h * 60 + m_ + rng.choice([1, 1, 30, 100000])
     return True
 
 
